@@ -136,3 +136,4 @@ def run(ctx):
   check_time_expressions(ctx)
   shape.check_line_breaks(ctx, ix.func("ttconv.srt.reader:_TextParser.handle_data"))
   shape.check_span_pairing(ctx, ix.func("ttconv.srt.reader:_TextParser.handle_starttag"), ix.func("ttconv.srt.reader:_TextParser.handle_endtag"))
+  common.check_history_independence(ctx, ["ttconv.srt.reader", "ttconv.utils"])
